@@ -54,6 +54,11 @@ pub struct Session {
 }
 
 pub fn run_ops(lines: &[String]) -> Report {
+    run_ops_opt(lines, true)
+}
+
+/// `store = false`: answers are computed and dropped (allocation accounting)
+pub fn run_ops_opt(lines: &[String], store: bool) -> Report {
     quiet_panics();
     let mut rep = Report::default();
     let mut areas: Vec<Box<dyn Area>> = vec![
@@ -96,7 +101,7 @@ pub fn run_ops(lines: &[String]) -> Report {
             }
             ["cfg", _, _] => "ok".to_string(),
             ["case", n] => {
-                if in_case {
+                if in_case && store {
                     rep.cases.push((case, nontriv));
                 }
                 case = n.parse().unwrap_or(0);
@@ -127,10 +132,21 @@ pub fn run_ops(lines: &[String]) -> Report {
                 out.unwrap_or_else(|| "bad-op".to_string())
             }
         };
-        rep.answers.push(ans);
+        if store {
+            rep.answers.push(ans);
+        }
     }
     if in_case {
         rep.cases.push((case, nontriv));
+    }
+    for a in areas.iter_mut() {
+        a.reset_case();
+    }
+    drop(areas);
+    if !store {
+        rep.cases.clear();
+        rep.oracle.clear();
+        rep.dist.clear();
     }
     rep
 }
